@@ -928,7 +928,7 @@ def _diff(got, exp):
 def _alloc_child(conn):
     try:
         ctx = billiard.get_context('fork')
-        c = ctx.Value('q', 111)
+        c = ctx.Value('i', 111)
         conn.send(('made', c.value))
         conn.recv()                      # parent has allocated and written
         conn.send(('still', c.value))
@@ -943,7 +943,7 @@ def _real_alloc_after_fork(method):
     """Storage handed out in a forked child and storage handed out in the
     parent afterwards are different storage."""
     ctx = billiard.get_context(method)
-    first = ctx.Value('q', 1)            # an arena with free space exists
+    first = ctx.Value('i', 1)            # an arena with free space exists
     pc, cc = ctx.Pipe()
     p = ctx.Process(target=_alloc_child, args=(cc,))
     p.daemon = True
@@ -953,7 +953,7 @@ def _real_alloc_after_fork(method):
         tag, v = pc.recv()
         if (tag, v) != ('made', 111):
             return 'violation', 'child object reads %r' % ((tag, v),)
-        mine = ctx.Value('q', 222)
+        mine = ctx.Value('i', 222)
         mine.value = 0x7777
         pc.send('go')
         tag, v = pc.recv()
